@@ -219,6 +219,8 @@ var parameterTypes = map[string]string{
 	"query":   "json",
 	"event":   "json",
 	"limit":   "int",
+	// (the names of the libraries a script wants: a list)
+	"libraries": "list",
 }
 
 var UnknownSyntax = errors.New("unknown syntax")
@@ -295,6 +297,10 @@ func parseParameter(p, v string) (interface{}, error) {
 		m := make(map[string]interface{})
 		err := Unmarshal([]byte(v), &m)
 		return m, err
+	case "list":
+		var xs []interface{}
+		err := json.Unmarshal([]byte(v), &xs)
+		return xs, err
 	case "int":
 		return strconv.ParseInt(v, 10, 32)
 	default:
